@@ -12,6 +12,7 @@ package drive
 import (
 	"context"
 	"crypto/sha256"
+	"database/sql"
 	"encoding/hex"
 	"encoding/json"
 	"fmt"
@@ -327,7 +328,7 @@ func (e *Env) Do(ctx context.Context, worker string, rq Req) ReqRes {
 // ---------------------------------------------------------------------------- fault injection
 
 // FaultKinds: SQLSTATEs of the sweep plus context cancellation.
-var FaultKinds = []string{"08006", "40001", "57014", "cancel"}
+var FaultKinds = []string{"08006", "40001", "57014", "cancel", "txdone", "40P01"}
 
 // Probe counts the fault-hook invocations of one worker (one per statement, plus one per COMMIT,
 // explicit or implicit) and records the positions at which a writing transaction committed.
@@ -422,17 +423,28 @@ func (p *Probe) Install(e *Env, ledger, bucket string, cancel context.CancelFunc
 	}
 }
 
-func (p *Probe) fire(sql string) error {
+func (p *Probe) fire(stmt string) error {
 	p.Fired = true
-	if len(sql) > 160 {
-		sql = sql[:160]
+	if len(stmt) > 160 {
+		stmt = stmt[:160]
 	}
-	p.FiredSQL = sql
+	p.FiredSQL = stmt
 	if p.Kind == "cancel" {
 		if p.cancel != nil {
 			p.cancel()
 		}
 		return context.Canceled
+	}
+	if p.Kind == "txdone" {
+		// The request context is cancelled between two statements and database/sql's watcher goroutine has
+		// already rolled the transaction back when the next statement (or COMMIT) is issued: database/sql then
+		// answers sql.ErrTxDone. Which of the watcher and the caller wins that race is a matter of goroutine
+		// scheduling; the outcome "the watcher won" is produced here deterministically: the context is cancelled,
+		// the engine aborts the transaction (as for any failing statement / COMMIT) and the caller gets ErrTxDone.
+		if p.cancel != nil {
+			p.cancel()
+		}
+		return sql.ErrTxDone
 	}
 	return injected(p.Kind)
 }
